@@ -13,22 +13,29 @@ mkdir -p "$W/repo" && git -C /repo archive HEAD | tar -x -C "$W/repo"
 rsync -a --exclude target /verif/harness/ "$W/harness/"
 sed -i "s#path = \"/repo\"#path = \"$W/repo\"#" "$W/harness/Cargo.toml"
 rm -f "$W/harness/.cargo/config.toml"
-if ! (cd "$W/repo" && patch -p1 -s --dry-run < "$PATCH" >/dev/null 2>&1); then echo "$NAME PATCH-DOES-NOT-APPLY"; rm -rf "$W"; exit 2; fi
-(cd "$W/repo" && patch -p1 -s < "$PATCH")
+if (cd "$W/repo" && patch -p1 -s --dry-run < "$PATCH" >/dev/null 2>&1); then
+  (cd "$W/repo" && patch -p1 -s < "$PATCH")
+elif (cd "$W/repo" && patch -p1 -s --fuzz=3 --dry-run < "$PATCH" >/dev/null 2>&1); then
+  # written against an earlier commit of /repo: apply with context fuzz (as tools/run_mutant.sh does)
+  (cd "$W/repo" && patch -p1 -s --fuzz=3 --no-backup-if-mismatch < "$PATCH")
+else
+  echo "$NAME PATCH-DOES-NOT-APPLY"; rm -rf "$W"; exit 2
+fi
 export CARGO_NET_OFFLINE=true
-LOCK=/tmp/mut-target.lock
+MT=${MUT_TARGET:-/tmp/mut-target}
+LOCK=$MT.lock
 exec 9>$LOCK; flock 9
 if [ "${BASELINE:-0}" = 1 ]; then
   res=$(cd "$W/repo" && CARGO_TARGET_DIR=/tmp/mut-target-repo cargo test --workspace --no-fail-fast --offline 2>&1 | grep -E "^test result|error(\[|:)" | head -4 | tr '\n' ' ')
   echo "$NAME baseline: $res"
 fi
-if ! (cd "$W/harness" && CARGO_TARGET_DIR=/tmp/mut-target cargo build --release --offline > "$W/build.log" 2>&1); then
+if ! (cd "$W/harness" && CARGO_TARGET_DIR=$MT cargo build --release --offline > "$W/build.log" 2>&1); then
   echo "$NAME HARNESS-BUILD-FAILED: $(grep -m1 -E '^error' "$W/build.log")"; rm -rf "$W"; exit 2
 fi
-cp /tmp/mut-target/release/pmv "$W/pmv"
+cp $MT/release/pmv "$W/pmv"
 # second binary (library without debug assertions / overflow checks), as ./check builds it
-if (cd "$W/harness" && CARGO_TARGET_DIR=/tmp/mut-target cargo build --profile plain --offline >> "$W/build.log" 2>&1); then
-  cp /tmp/mut-target/plain/pmv "$W/pmv-plain"
+if (cd "$W/harness" && CARGO_TARGET_DIR=$MT cargo build --profile plain --offline >> "$W/build.log" 2>&1); then
+  cp $MT/plain/pmv "$W/pmv-plain"
 fi
 flock -u 9
 export VERIF_EVIDENCE_DIR=$W/evidence VERIF_REPLAY_DIR=$W/replays
